@@ -38,7 +38,11 @@ class TapeImageContentExtractor(TapeImageWorker):
         listener: TapeImageCliListener,
     ):
         tape = imageManager.image
-        targetDir = os.path.dirname(args.archive)
+        targetDir = (
+            args.into if args.into is not None else os.path.dirname(args.archive)
+        )
+        if targetDir != "":
+            os.makedirs(targetDir, exist_ok=True)
         block = tape.nextBlock()
         while block is not None:
             if block.type == TypeOfTapeBlock.LEADER:
